@@ -96,7 +96,7 @@ def exec_upgrade(c):
                 cfg[k] = FALSY[k] if p in c["falsy"] else TRUTHY[k]
                 user[k] = cfg[k]
         json.dump(cfg, open(os.path.join(evo, "settings.json"), "w"))
-        open(os.path.join(evo, "assets_version"), "w").write("v0.0.1")
+        open(os.path.join(evo, "assets_version"), "w").write(["v0.0.1", "v1.9.0", "v1.12.0", "v1.4.2"][__import__("zlib").crc32(repr(sorted(c.items())).encode()) % 4])
         env = dict(os.environ, HOME=home, PYTHONWARNINGS="ignore")
         code = ("import json, evo.tools.settings as s\n"
                 "loaded = dict((k, s.SETTINGS[k]) for k in s.SETTINGS if k != '__locked__')\n"
